@@ -53,8 +53,8 @@ def expected_rows(doc):
     for i, row in enumerate(doc['rows']):
         if 'c' not in row:
             continue
-        if all(c['k'] in ('null', 'nullinterp') for c in row['c']):
-            continue
+        if all(c['k'] in ('null', 'nullinterp') or c.get('hidden') for c in row['c']):
+            continue  # all null (invisible barlines are exported as placeholders by design)
         out.append((i, row['c']))
     return out
 
